@@ -102,84 +102,149 @@ def search_cover(ctx):
     return _emit(d)
 
 
+def _strip_conv(e):
+    """integer conversions erased (usize <-> isize round trips of a cursor)"""
+    if not isinstance(e, tuple):
+        return e
+    if e and e[0] == "call" and len(e) > 2 and isinstance(e[1], str) and e[1].split("::")[-1] == "unwrap" and len(e[2]) == 1:
+        x = e[2][0]
+        if isinstance(x, tuple) and x and x[0] == "call" and x[1].split("::")[-1] in ("try_into", "try_from") and len(x[2]) == 1:
+            return _strip_conv(x[2][0])
+    if e and e[0] == "cast" and len(e) > 2 and isinstance(e[-1], tuple):
+        return _strip_conv(e[-1])
+    return tuple(_strip_conv(x) if isinstance(x, tuple) else x for x in e)
+
+
+def _sum_terms(e, cur, ind):
+    """a sum as the sorted list of its terms, with the cursor local written CUR and the turn number k"""
+    e = _strip_conv(e)
+    out = []
+
+    def go(x):
+        if isinstance(x, tuple) and x and x[0] == "add" and len(x) == 3:
+            go(x[1])
+            go(x[2])
+        elif isinstance(x, tuple) and x and x[0] in ("var", "uninit", "argvar") and len(x) > 1 and x[1] == cur:
+            out.append("CUR")
+        elif isinstance(x, tuple) and x and ((x[0] == "named" and x[1] == "k") or (x[0] in ("var", "uninit") and x[1] in ind)):
+            out.append("k")
+        else:
+            out.append(strip_ver(show(x)))
+    go(e)
+    return sorted(out)
+
+
 @rule("LINE-SEEK", ["C12", "C01", "C02", "C04", "C08", "C20"], floor=4)
 def line_seek(ctx):
-    """Multi-line '^' fast path: after trying the given start, every position following a U+000A (searched forward
-    from the previous line start, not beyond) and lying before the end of input is tried, in order."""
+    """Multi-line '^' fast path: after trying the given start, every position that follows a U+000A and lies before
+    the end of the input is tried, in order, and no other.  Stated over the scan itself, in turn-indexed form
+    (rxv/lockstep.py): a loop that walks the input forward from a cursor (however it is spelt: `find` / `position`
+    over `iter().enumerate().skip(cursor)` or over the sub-slice from the cursor, a hand-written loop; a signed
+    cursor with -1 for "no newline" or an unsigned one with Option); turn k looks at search[cursor + k]; a newline
+    there makes NL = cursor + k + 1 the candidate: beyond or at the end of the input the search ends with false,
+    otherwise match_at(NL) is tried - true ends it with true, false moves the cursor to NL exactly and the scan goes
+    on; running out of input ends it with false."""
+    from ..lockstep import Lockstep
     b = ctx.body(MATCHES)
     if b is None:
         return [missing(MATCHES)]
-    loops = b.natural_loops()
-    # the loop that contains the Iterator::find call
-    finds = [bb for bb, t, r in call_sites(b, lambda r: r.endswith("::find"))]
-    hs = [h for h, blocks in loops.items() if any(f in blocks for f in finds)]
-    if len(finds) != 1 or len(hs) != 1:
-        return [bad("shape", "the line seek of ReMatcher::matches must be one loop around one Iterator::find", b.loc())]
-    h = hs[0]
     d = {}
-
-    def cv(s):
-        """conversions between usize and isize erased (the seek was transliterated with a signed cursor and -1 for
-        "no newline"; an unsigned cursor with Option says the same), sums written 1 + x"""
-        s = _sh(strip_ver(s))
-        prev = None
-        while prev != s:
-            prev = s
-            s = re.sub(r"Result::unwrap\(<T as TryInto<U>>::try_into\(((?:[^()]|\((?:[^()]|\((?:[^()]|\((?:[^()]|\([^()]*\))*\))*\))*\))*)\)\)", r"\1", s)
-        return s
-
-    for p in ctx.walk(b, start_bb=h).paths:
-        gs, r = summarize(p)
-        gs = [cv(g) for g in gs]
+    NLC = ("const", "char", 10)
+    SEARCH = ("field", ("arg", 1), "search")
+    found = None
+    for h in sorted(b.natural_loops()):
+        ls = Lockstep(ctx, b, h)
+        paths = ls.paths(ctx)
+        for p in paths:
+            for a, o in p.guards:
+                a = _strip_conv(a)
+                if isinstance(a, tuple) and a and a[0] == "eq" and NLC in a[1:]:
+                    other = [x for x in a[1:] if x != NLC]
+                    x = other[0] if other else None
+                    while isinstance(x, tuple) and x and x[0] in ("ref", "deref"):
+                        x = x[1]
+                    if isinstance(x, tuple) and x and x[0] == "index" and x[1] == SEARCH:
+                        found = (h, ls, paths, x[2])
+                        break
+            if found:
+                break
+        if found:
+            break
+    if not found:
+        return [bad("shape", "no loop of ReMatcher::matches scans the input for U+000A (the multi-line '^' seek was not recognised)", b.loc())]
+    h, ls, paths, idx0 = found
+    ind = set(getattr(ls, "induction", {}) or {})
+    # the cursor: the local in the index cursor + k
+    cur = None
+    def locals_in(x, acc):
+        if isinstance(x, tuple):
+            if x and x[0] in ("var", "uninit") and len(x) > 1 and isinstance(x[1], int) and x[1] not in ind:
+                acc.append(x[1])
+            for y in x:
+                locals_in(y, acc)
+        return acc
+    cands = locals_in(_strip_conv(idx0), [])
+    if len(set(cands)) == 1:
+        cur = cands[0]
+    if cur is None:
+        return [bad("shape", "the position looked at by the newline scan is not cursor + turn (%s)" % strip_ver(show(idx0))[:100], b.loc(h))]
+    IDX = ["CUR", "k"]
+    NL = ["1", "CUR", "k"]
+    LEN = ("len", SEARCH)
+    for p in paths:
         loc = b.loc(p.blocks[-1])
-        cs = [(c[0], [cv(x) for x in c[1]]) + tuple(c[2:]) for c in _calls(p)]
-        sk = [c for c in cs if c[0] == "Iterator::skip"]
-        if len(sk) != 1:
-            _rec(d, "skip", False, "the seek must skip exactly to the previous line start", loc)
+        gs = [(_strip_conv(a), o) for a, o in p.guards]
+        r = strip_ver(render(p.ret)) if p.ret is not None else None
+        drv = [a for a, o in gs if a[0] == "variant" and isinstance(a[1], tuple) and a[1][0] == "call" and a[1][1] == "next" and a[1][2] and a[1][2][0][0] == "named"]
+        dvo = [o for a, o in gs if a[0] == "variant" and isinstance(a[1], tuple) and a[1][0] == "call" and a[1][1] == "next" and a[1][2] and a[1][2][0][0] == "named"]
+        if not drv:
+            _rec(d, "skip-from-line-start", False, "a turn of the newline scan does not begin with its iterator's next()", loc)
             continue
-        arg = sk[0][1][1]
-        _rec(d, "skip-from-line-start", re.match(r"^uninit\(\d+\)$", arg) is not None and sk[0][1][0] == "Iterator::enumerate(a1.search)", "the newline search must start at the previous line start itself (skip(nl)), over search.iter().enumerate(); found skip(%s, %s)" % (sk[0][1][0][:40], arg[:80]), loc)
-        fd = [c for c in cs if c[0] == "Iterator::find"]
-        _rec(d, "find-forward", len(fd) == 1 and "rev" not in " ".join(x[0] for x in cs), "the newline search must run forward", loc)
-        fv = [g for g in gs if g.startswith("variant(Iterator::find(")]
-        if not fv:
-            _rec(d, "find-result-tested", False, "the result of the newline search is not examined", loc)
-            continue
-        ma = [g for g in gs if g.lstrip("!").startswith("match_at(")]
-        if fv[0].endswith("=None"):
+        seq = drv[0][1][2][0][1]
+        seqn = re.sub(r"Result::unwrap\(<T as TryInto<U>>::try_into\(([^()]*)\)\)", r"\1", seq)
+        okd = re.match(r"^<0\.\.len\(a1\.search\) skip (?:v|uninit\()%d\)?>$" % cur, seqn) is not None or re.match(r"^<a1\.search\[(?:v|uninit\()%d\)?\.\.(?:len\(a1\.search\))?\]>$" % cur, seqn) is not None
+        _rec(d, "skip-from-line-start", okd, "the newline scan must walk the input forward from the cursor (the previous line start); it walks %s" % seq[:100], loc)
+        _rec(d, "find-forward", "rev" not in seq, "the newline scan must run forward", loc)
+        ma = [(a, o) for a, o in gs if a[0] == "call" and a[1].split("::")[-1] == "match_at"]
+        if dvo[0] == ("variant", "None"):
             _rec(d, "no-newline", r == "false" and not ma, "when no further newline exists the search must end with false", loc)
             continue
-        FIND = fv[0][len("variant("):-len(")=Some")]
-        IDX = "%s as Some.0.0" % FIND
-        NLS = ("add(1, %s)" % IDX, "add(%s, 1)" % IDX)
-        bt = [(g, nl) for g in gs for nl in NLS if g.lstrip("!") == "lt(%s, len(a1.search))" % nl]
+        hit = [(a, o) for a, o in gs if a[0] == "eq" and NLC in a[1:]]
+        if not hit:
+            _rec(d, "newline-tested", False, "a turn of the scan does not compare the character with U+000A", loc)
+            continue
+        if _sum_terms([x for x in hit[0][0][1:] if x != NLC][0][2] if [x for x in hit[0][0][1:] if x != NLC][0][0] == "index" else idx0, cur, ind) != IDX and _sum_terms(idx0, cur, ind) != IDX:
+            _rec(d, "skip-from-line-start", False, "turn k of the scan must look at search[cursor + k]", loc)
+        if hit[0][1] is False:
+            # not a newline: the scan goes on with the next character, and nothing else happens
+            _rec(d, "find-forward", p.end == "loop:%d" % h and not ma and cur not in p.env, "a character other than U+000A must only move the scan on by one", loc)
+            continue
+        bt = [(a, o) for a, o in gs if a[0] == "lt" and a[2] == LEN and _sum_terms(a[1], cur, ind) == NL]
         if not bt:
-            other = [g for g in gs if re.match(r"^!?lt\(.*, len\(a1\.search\)\)$", g) and "Iterator::find(" in g]
+            other = [a for a, o in gs if a[0] == "lt" and a[2] == LEN]
             if other:
-                _rec(d, "next-line-start", False, "the next line start must be (index of the newline) + 1; found %s" % other[0][:120], loc)
+                _rec(d, "next-line-start", False, "the next line start must be (index of the newline) + 1; the bounds test is on %s" % _sum_terms(other[0][1], cur, ind), loc)
             else:
                 _rec(d, "bounds-test", False, "the new line start is not compared with the input length", loc)
             continue
-        g0, NL = bt[0]
         _rec(d, "next-line-start", True, "", loc)
-        if g0.startswith("!"):
+        if bt[0][1] is False:
             _rec(d, "at-or-past-end", r == "false" and not ma, "a line start at or beyond the end of input must end the search with false ('^' does not match after a final newline)", loc)
             continue
-        if ("!lt(0, %s)" % NL) in gs:
-            # the signed form's "no newline" (index -1, plus 1)
+        neg = [(a, o) for a, o in gs if a[0] == "lt" and a[1] == ("const", "int", 0) and _sum_terms(a[2], cur, ind) == NL]
+        if neg and neg[0][1] is False:
             _rec(d, "no-newline", r == "false" and not ma, "when no further newline exists the search must end with false", loc)
             continue
-        _rec(d, "try-line-start", bool(ma) and ma[-1].lstrip("!") == "match_at(a1, %s, false)" % NL, "match_at must be tried at the new line start; found %s" % (ma[-1][:100] if ma else None), loc)
-        if ma and not ma[-1].startswith("!"):
+        good_try = len(ma) == 1 and ma[0][0][2][0] == ("arg", 1) and _sum_terms(ma[0][0][2][1], cur, ind) == NL and ma[0][0][2][2] == ("const", "bool", False)
+        _rec(d, "try-line-start", good_try, "match_at must be tried (once) at the new line start; found %s" % [strip_ver(show(a))[:100] for a, o in ma], loc)
+        if ma and ma[-1][1] is True:
             _rec(d, "true-on-match", r == "true", "a match at a line start must answer true", loc)
-        if ma and ma[-1].startswith("!"):
-            _rec(d, "continue", p.end.startswith("loop"), "after a failed attempt the seek must continue with the following line", loc)
-            # ... from that line start: the cursor the next search skips to is the position just tried
-            m_ = re.match(r"^uninit\((\d+)\)$", arg)
-            if m_ and p.end.startswith("loop"):
-                nv = p.env.get(int(m_.group(1)))
-                _rec(d, "continue", nv is not None and cv(render(nv)) == NL, "after a failed attempt the next search must start at the line start just tried; the cursor becomes %s" % (cv(render(nv))[:100] if nv is not None else None), loc)
-    # the two closures: find tests == '\n' (NEWLINE-CONST), map returns the index
+        if ma and ma[-1][1] is False:
+            nv = p.env.get(cur)
+            _rec(d, "continue", p.end.startswith("loop") and nv is not None and _sum_terms(nv, cur, ind) == NL, "after a failed attempt the scan must go on from the line start just tried (cursor := that position); the cursor becomes %s" % (_sum_terms(nv, cur, ind) if nv is not None else None), loc)
+    for k in ("skip-from-line-start", "find-forward", "next-line-start", "at-or-past-end", "no-newline", "try-line-start", "true-on-match", "continue"):
+        if k not in d:
+            d[k] = [False, "the multi-line '^' seek of ReMatcher::matches no longer shows clause %s (restructured; re-audit)" % k, b.loc()]
     return _emit(d)
 
 
@@ -219,6 +284,13 @@ def match_at(ctx):
         if hasbr:
             allocs = [s for s in st if s[0].endswith(".start_backref") or s[0].endswith(".end_backref")]
             good = len(allocs) == 2 and all("from_elem(Option::None, Option::unwrap(a1.program.max_parens))" in s[1] for s in allocs) and all(s[2] <= cs[m_i][2] or b.dominates(s[2], cs[m_i][2]) for s in allocs)
+            if not good and not allocs:
+                # the same fresh state with the storage kept: clear(), then resize(max_parens, None), per array
+                def refilled(arr):
+                    ci = [i for i, c in enumerate(before) if c[0].endswith("clear") and c[1] and c[1][0].endswith("." + arr)]
+                    ri = [i for i, c in enumerate(before) if c[0].endswith("resize") and len(c[1]) == 3 and c[1][0].endswith("." + arr) and c[1][1] == "Option::unwrap(a1.program.max_parens)" and c[1][2] == "Option::None"]
+                    return bool(ci) and bool(ri) and ci[0] < ri[0]
+                good = refilled("start_backref") and refilled("end_backref")
             _rec(d, "backref-alloc", good, "with back-references both arrays must be re-allocated (None; max_parens) for every attempt before matching; stores %s" % [(s[0][-20:], s[1][:60]) for s in allocs], loc)
         hist = [s for s in st if s[0].endswith(".history")]
         _rec(d, "history-reset", any("History::new()" in s[1] for s in hist) and all(b.dominates(s[2], cs[m_i][2]) for s in hist), "the zero-length-match memo must be reset for every attempt (an attempt at the same position after a failed one is otherwise denied the zero-iteration alternative): (x?)(?:aa|b)*c\\1 on 'xc'", loc)
@@ -352,10 +424,16 @@ def exh_seq(ctx):
         gs, r = summarize(p)
         r = _sh(strip_ver(r))
         loc = nw.loc()
-        caps = "a4" in gs
+        # the constructor is handed the operations and the "contains capturing expressions" flag, or the sequence itself
+        # (and asks it)
+        gsn = [_sh(strip_ver(g)).replace("<Sequence as OperationControl>::", "") for g in gs]
+        by_seq = any(g.lstrip("!") == "contains_capturing_expressions(a2)" for g in gsn)
+        caps = ("a4" in gs) or ("contains_capturing_expressions(a2)" in gsn)
+        OPS = "a2.operations" if by_seq else "a2"
         want_saved = "saved_state: Option::Some{0: capture_state(a1)}" if caps else "saved_state: Option::None"
         _rec(d, "new|saved-state|%s" % caps, want_saved in r, "SequenceIterator::new must snapshot the capture state iff the sequence contains capturing expressions; found %s" % r[:200], loc)
-        _rec(d, "new|first-iterator", "iterators: vec![matches_iter(Option::unwrap(first(a2)), a1, a3)]" in r and "operations: a2" in r and "matcher: a1" in r, "the stack must start with operations[0].matches_iter(matcher, position)", loc)
+        _rec(d, "new|first-iterator", ("iterators: vec![matches_iter(Option::unwrap(first(%s)), a1, a3)]" % OPS) in r and ("operations: %s" % OPS) in r and "matcher: a1" in r, "the stack must start with operations[0].matches_iter(matcher, position)", loc)
+        d.setdefault("__by_seq", [by_seq, "", None])
         if caps:
             # the snapshot is taken before the first term's iterator exists: the repeat operators match eagerly while
             # their iterator is built, and a snapshot taken afterwards already holds what they captured
@@ -364,9 +442,12 @@ def exh_seq(ctx):
             mi_ = [i for i, c in enumerate(cs_) if c[0].endswith("matches_iter")]
             _rec(d, "new|snapshot-before-first-term", bool(si) and bool(mi_) and si[0] < mi_[0], "SequenceIterator::new must save the capture state before it asks the first term for its iterator (order of calls: %s)" % [c[0] for c in cs_ if c[0] == "capture_state" or c[0].endswith("matches_iter")], loc)
     sm = ctx.body("<op_sequence::Sequence as %s>::matches_iter" % OC)
+    if sm is None:
+        d.pop("__by_seq", None)
     if sm is not None:
         rs = {_sh(strip_ver(render(p.ret))) for p in ctx.walk(sm).paths}
-        _rec(d, "seq-matches_iter", rs == {"SequenceIterator::new(a2, a1.operations, a3, contains_capturing_expressions(a1))"} or rs == {"SequenceIterator::new(a2, a1.operations, a3, <Sequence as OperationControl>::contains_capturing_expressions(a1))"}, "Sequence::matches_iter must build SequenceIterator::new(matcher, operations, position, self.contains_capturing_expressions()); found %s" % sorted(rs), sm.loc())
+        by_seq = bool(d.pop("__by_seq", [False])[0])
+        _rec(d, "seq-matches_iter", (by_seq and rs == {"SequenceIterator::new(a2, a1, a3)"}) or (not by_seq and (rs == {"SequenceIterator::new(a2, a1.operations, a3, contains_capturing_expressions(a1))"} or rs == {"SequenceIterator::new(a2, a1.operations, a3, <Sequence as OperationControl>::contains_capturing_expressions(a1))"})), "Sequence::matches_iter must build SequenceIterator::new(matcher, operations, position, self.contains_capturing_expressions()); found %s" % sorted(rs), sm.loc())
     return _emit(d)
 
 
